@@ -83,19 +83,20 @@ impl RangeListTable {
         for range_list in self.ranges.iter() {
             let mut have_base_address = have_unit_base_address;
             offsets.push(w.offset());
+            // An entry that begins with this value would be read as a base address selection.
+            let marker = !0 >> (64 - address_size * 8);
             for range in &range_list.0 {
                 // Note that we must ensure none of the ranges have both begin == 0 and end == 0.
                 // We do this by ensuring that begin != end, which is a bit more restrictive
                 // than required, but still seems reasonable.
                 match *range {
                     Range::BaseAddress { address } => {
-                        let marker = !0 >> (64 - address_size * 8);
                         w.write_udata(marker, address_size)?;
                         w.write_address(address, address_size)?;
                         have_base_address = true;
                     }
                     Range::OffsetPair { begin, end } => {
-                        if begin == end {
+                        if begin == end || begin == marker {
                             return Err(Error::InvalidRange);
                         }
                         if !have_base_address {
@@ -105,7 +106,7 @@ impl RangeListTable {
                         w.write_udata(end, address_size)?;
                     }
                     Range::StartEnd { begin, end } => {
-                        if begin == end {
+                        if begin == end || begin == Address::Constant(marker) {
                             return Err(Error::InvalidRange);
                         }
                         if have_base_address {
@@ -127,7 +128,7 @@ impl RangeListTable {
                                     .ok_or(Error::InvalidRange)?,
                             },
                         };
-                        if begin == end {
+                        if begin == end || begin == Address::Constant(marker) {
                             return Err(Error::InvalidRange);
                         }
                         if have_base_address {
